@@ -52,7 +52,7 @@ func Lists(Tokens []string, maxLen int) [][]string {
 }
 
 var (
-	TokVerbs  = []string{"*", "get", "list", "-get", "-list", "-*"}
+	TokVerbs  = []string{"*", "get", "list", "-get", "-list", "-*", "GET", "-GET"} // (verbs are compared as written: GET is not get)
 	TokGroups = []string{"*", "", "apps", "-", "-apps", "-*"}
 	// ("status" / "-status": a resource that is NAMED like the subresource the */sub entries speak of)
 	TokRes   = []string{"*", "pods", "pods/status", "*/status", "deployments", "-pods", "-deployments", "-pods/status", "-*/status", "status", "-status", "-*"}
